@@ -26,6 +26,9 @@ def gen_envs(rng, n_envs, quick=True):
 def run_case(case):
     r = gens.render(case["gen"])
     files, entry, expect, fail = r["files"], r["entry"], r["expect"], r["fail"]
+    if expect and expect[0][0] == "exact" and expect[0][1].startswith("<<invalid spec"):
+        # an ill-formed spec (only reachable through shrinking): nothing to judge
+        return {"ok": True, "stats": {"procs": 0, "shape": "invalid", "nontrivial": False}}
     procs, rules = [], []
     st_probes = {}
     verdict = None
@@ -56,6 +59,8 @@ def run_case(case):
             msg = None
             if final["timeout"]:
                 msg = ("timeout", "program did not terminate")
+            elif final["args"][0] in ("run", "compile") and b"Did not compile successfully" in final["err"]:
+                msg = ("compile-error", "the generated program was rejected by the compiler: %s" % out[-600:])
             elif fail is None and final["rc"] != 0:
                 msg = ("unexpected-failure", "exit %d, model expects success; stderr: %s | stdout tail: %s"
                        % (final["rc"], core.text(final["err"])[-400:], out[-300:]))
